@@ -143,7 +143,9 @@ def run_sequence(det, cfg, bits, ctx, label, resets=(), numpy_params=False):
                           "%s%s step %d of %s: retraining_recs %r, specification %r (state %r)" % (det, tuple(cfg), i, label, recs, m.recs, st),
                           detector=det, cfg=cfg, bits=list(bits[: i + 1]), step=i, got=recs, expected=m.recs)
             return False, drifts
-        if det == "STEPD":
+        # the accuracies are read after every sample, or (a third of the histories) only now and then - a reader must not be what
+        # keeps them fresh
+        if det == "STEPD" and (len(bits) % 3 != 1 or i % 11 == 7):
             acc = (d.recent_accuracy(), d.past_accuracy(), d.overall_accuracy())
             exp = (m.recent, m.past, m.overall)
             if not all(close(a, b) for a, b in zip(acc, exp)):
@@ -189,6 +191,15 @@ def run_case(case, ctx):
     cfg = rand_cfg(det, rng)
     n = int(rng.integers(200, 1500))
     bits = gen.bernoulli_piecewise(rng, n, seg=(2, 150))
+    if rng.random() < 0.15:
+        # epochs that end at the very first moment a decision is possible: a full window of correct predictions followed by a full
+        # window of wrong ones, again and again (with a few stray samples in between)
+        w_ = int(cfg[0])
+        bits = []
+        while len(bits) < n:
+            bits += [0] * w_ + [1] * w_ + [int(b) for b in rng.integers(0, 2, size=int(rng.integers(0, 3)))]
+        bits = bits[:n]
+        ctx.count("streams_of_full_windows_right_then_wrong")
     resets = set(int(v) for v in rng.integers(1, n, size=int(rng.integers(0, 4)))) if rng.random() < 0.3 else set()
     ok, drifts = run_sequence(det, cfg, bits, ctx, "random sequence" + (" with explicit reset() before %s" % sorted(resets) if resets else ""), resets,
                                 numpy_params=(case["seed"][-1] % 3 == 1))
